@@ -64,8 +64,9 @@ def run(prog: Program, res: Result) -> None:
     from ..sgn import MAX as _MAX, MIN as _MIN, Unknown as _SUnk, _subst as _ssub, eval_function as _evf
     vparam, dparam = (cf.params + [None, None])[:2]
     try:
-        rmin = _evf(cf.node, {dparam}, _MIN)
-        rmax = _evf(cf.node, {dparam}, _MAX)
+        from ..sgn import _resolve_inside as _rin
+        rmin = [_rin(r_, {dparam}, _MIN) if r_ is not None else None for r_ in _evf(cf.node, {dparam}, _MIN)]
+        rmax = [_rin(r_, {dparam}, _MAX) if r_ is not None else None for r_ in _evf(cf.node, {dparam}, _MAX)]
         if len(rmin) == 1 and len(rmax) == 1 and rmin[0] is not None and rmax[0] is not None:
             neg = ast.UnaryOp(op=ast.USub(), operand=ast.Name(id=vparam, ctx=ast.Load()))
             want = _ssub(rmin[0], {vparam: neg})
@@ -77,12 +78,25 @@ def run(prog: Program, res: Result) -> None:
                                 "calculate_fitness ignores the task direction: for a maximisation task the fitness is computed from the "
                                 "internal (negated) cost, so it is not the fitness of the cost the agent reports"))
             elif not okf:
-                res.errors.append(f"{cf.loc()} calculate_fitness: the MAX branch `{norm(rmax[0], 80)}` is not the MIN branch applied to "
-                                  f"the negated value (undecided)")
+                res.note(f"{cf.loc()} calculate_fitness: the MAX branch `{norm(rmax[0], 80)}` is not recognised as the MIN branch applied "
+                         f"to the negated value (the direction rule makes no claim)")
+        elif len(rmin) == len(rmax) and all(r_ is not None for r_ in rmin + rmax):
+            neg = ast.UnaryOp(op=ast.USub(), operand=ast.Name(id=vparam, ctx=ast.Load()))
+            okf = all(norm(_ssub(a_, {vparam: neg}), 600) == norm(b_, 600) for a_, b_ in zip(rmin, rmax))
+            same = all(norm(a_, 600) == norm(b_, 600) for a_, b_ in zip(rmin, rmax))
+            if okf:
+                res.ob(True, f"{cf.loc()} calculate_fitness(v, MAX) == calculate_fitness(-v, MIN) on each return path", "calculate_fitness:direction")
+            elif same:
+                res.ob(False)
+                res.add(Finding(P, "C02.R1-root-fitness", "helpers.calculate_fitness::direction", cf.loc(),
+                                "calculate_fitness ignores the task direction: for a maximisation task the fitness is computed from the "
+                                "internal (negated) cost, so it is not the fitness of the cost the agent reports"))
+            else:
+                res.note(f"{cf.loc()} calculate_fitness: return paths not recognised (the direction rule makes no claim)")
         else:
-            res.errors.append(f"{cf.loc()} calculate_fitness: several return paths under a fixed direction (undecided)")
+            res.note(f"{cf.loc()} calculate_fitness: return paths differ between the directions (the direction rule makes no claim)")
     except _SUnk as exc:
-        res.errors.append(f"{cf.loc()} calculate_fitness: {exc} (undecided)")
+        res.note(f"{cf.loc()} calculate_fitness: {exc} (the direction rule makes no claim)")
     if not pure:
         res.add(Finding(P, "C02.R1-root-fitness", "helpers.calculate_fitness::purity", cf.loc(),
                         "calculate_fitness reads state other than (value, task_type)"))
